@@ -1002,6 +1002,15 @@ def _stratum_inits(name, tier):
             for i, s in enumerate(_strings(3)):
                 for d in inits_for_string(s, 2):
                     yield i, d
+    elif name == "L":
+        # aliasing: the stratum-A states; of the length-3 strings quick keeps only span sets over one style,
+        # thorough only span sets of <=1 span
+        for i, d in _stratum_inits("A", tier):
+            if len(d.get("s", "")) == 3:
+                sp = d.get("spans", ())
+                if (tier == "quick" and any(x[2] != "red" for x in sp)) or (tier != "quick" and len(sp) > 1):
+                    continue
+            yield i, d
     elif name == "B":
         if tier == "quick":
             for i, s in enumerate(_strings(1)):
@@ -1053,7 +1062,7 @@ def run_shard(sh, tier, seed):
         inits = [d for i, d in _stratum_inits("B", tier) if i % sh["n"] == sh["i"]]
         explore(inits, [FULL, FULL], res)
     elif st == "L":
-        inits = [d for i, d in _stratum_inits("A", tier) if i % sh["n"] == sh["i"]]
+        inits = [d for i, d in _stratum_inits("L", tier) if i % sh["n"] == sh["i"]]
         explore_alias(inits, res)
     elif st == "D":
         D = sh["depth"]
@@ -1079,7 +1088,7 @@ def describe(tier, seed, res):
                  "characters are not enabled. Each piece returned by split/divide/fit is a successor. A violating "
                  "transition is reported and not extended. Non-trivial = the event changed the reference state or "
                  "produced pieces; distinct = distinct outcome signatures (event, argument class, pieces, changed, "
-                 "styled, wild, tainted). Stratum L (aliasing): every stratum-A initial state x %d deriving events (copy, +, "
+                 "styled, wild, tainted). Stratum L (aliasing): every stratum-A initial state (of the length-3 strings quick keeps spans of one style, thorough <=1 span) x %d deriving events (copy, +, "
                  "reversed + / append / append_text with the text as argument, Text.assemble with the text as part, text[i], "
                  "slices, split / divide / fit pieces, join as separator and as element, Highlighter.__call__, copy_styles "
                  "source) x %d mutating events x 2 directions: mutate every derived piece -> the original must be observably "
